@@ -11,6 +11,7 @@ var Registry = map[string]func(*Ctx){
 	"C01": C01,
 	"C02": C02,
 	"C03": C03,
+	"C04": C04,
 	"C05": C05,
 	"C06": C06,
 	"C08": C08,
